@@ -4,7 +4,13 @@ from . import refmodel as R
 from .kernel import TICK
 
 REFUSED_TYPES = (0, 2, 6, 7, 8, 9)
-EPS = 1e-6    # float noise from non-dyadic sweep intervals (T / n sessions)
+EPS0 = 1e-6   # float noise from non-dyadic sweep intervals (T / n sessions)
+# Every time comparison of the oracles allows EPS.  It is EPS0 when computation
+# takes no virtual time (all runs but the "stall" runs of line granularity);
+# in a stall run threads were kept away from the CPU for up to
+# kernel.stall_total seconds in all, and every bound, tie and order that is
+# read off the clock is blurred by that much (Facts() sets it per run).
+EPS = EPS0
 
 
 def V(clause, sig, text):
@@ -31,6 +37,13 @@ class Facts:
                 'handler_faults', []) if f.get('action') == 'sleep')
         self.has_sleep = any(e.get('fault') == 'sleep'
                              for e in h.app.events)
+        # a thread kept away from the CPU between two lines (stall runs of
+        # line granularity) is time spent inside the server, like a
+        # sleeping synchronous handler
+        stall = getattr(h.world.k, 'stall_total', 0.0)
+        if stall:
+            self.handler_sleep += stall
+            self.has_sleep = True
         for e in h.app.events:
             sid = e['sid']
             s = self.sess.get(sid)
@@ -193,12 +206,21 @@ class Facts:
         for (seq, t, pt, d) in h.world.qlog.get(sid, []):
             if pt != R.PING:
                 continue
+            blur = EPS - EPS0
             if not any(t - EPS <= tp <= t + self.T + EPS for tp in pongs):
                 later = [tp for tp in pongs if tp > t + self.T + EPS]
                 out.append(_cause('silence', None, t + self.T, False,
                                   {'ping timeout', 'transport close',
                                    'transport error'},
                                   resumed=later[0] if later else None))
+            elif blur and not any(t - EPS <= tp <= t + self.T - blur
+                                  for tp in pongs):
+                # stall run: a PONG this close to the deadline may or may
+                # not have been in time for the server
+                out.append(_cause('silence', None, t + self.T - blur, False,
+                                  {'ping timeout', 'transport close',
+                                   'transport error'},
+                                  resumed=None, optional=True))
         self._causes[sid] = out
         return out
 
@@ -454,6 +476,9 @@ def _check_reason(f, sid, s, d, causes):
         elif reason == 'transport close' and _reader_armed_at_upgrade(
                 f, sid, d):
             sig = '%s|ws-reader-timeout-armed-at-upgrade' % impl
+        elif reason == 'transport close' and _writer_starved_after_upgrade(
+                f, sid, d):
+            sig = '%s|ws-writer-starved-by-stale-poll' % impl
         out.append(V('disconnect-cause', sig,
                      'session %s disconnected (%r at t=%.4f) but no end '
                      'cause had occurred' % (sid, reason, d['t'])))
@@ -473,7 +498,7 @@ def _check_reason(f, sid, s, d, causes):
     if imm:
         first = min(imm, key=lambda c: (c['t'], c['seq']))
         others = [c for c in causes if c is not first]
-        if all(o['t'] > first['t'] for o in others) and \
+        if all(o['t'] > first['t'] + (EPS - EPS0) for o in others) and \
                 reason not in first['reasons']:
             sig = '%s|not-first-cause|%s|first=%s' % (impl, reason,
                                                       first['kind'])
@@ -516,6 +541,28 @@ def _reader_armed_at_upgrade(f, sid, d):
         return False
     later = [t for (_s, t, dd) in conn.recv_s if t > t5 + EPS]
     return not later and abs(d['t'] - (t5 + f.I + f.T)) <= EPS
+
+
+def _writer_starved_after_upgrade(f, sid, d):
+    """The WebSocket writer waits I + T for a packet, counted from the
+    completion of the upgrade or from the last packet it wrote.  A client
+    that kept a second long-poll open across the upgrade (not conformant)
+    receives the next PING through that poll: the writer sees nothing for
+    I + T and closes the socket of a session that answers every PING."""
+    conn = f.server_upgraded_conn(sid)
+    c = f.sess[sid]['client']
+    if conn is None or c is None:
+        return False
+    t5 = next((t for (_s, t, dd) in conn.recv_s if dd == '5'), None)
+    if t5 is None:
+        return False
+    wrote = [t for (_s, t, _d) in conn.sent_s if t5 - EPS <= t < d['t'] - EPS]
+    t0 = max(wrote) if wrote else t5
+    if abs(d['t'] - (t0 + f.I + f.T)) > EPS + (f.handler_sleep or 0):
+        return False
+    # a poll that was answered after the upgrade had completed
+    return any(r.t_done is not None and r.t_done > t5 + EPS and
+               r.status == 200 for r in c.polls)
 
 
 def _check_after_disconnect(f, sid, s, d):
@@ -1202,7 +1249,7 @@ def check_upgrade(h, f=None):
             if not u.get('finished') or u['conn'].blackholed:
                 continue    # (a black-holed socket has not failed as far
                 #             as the server can tell: it legitimately waits)
-            t_fail = u['t_end'] + 16 * TICK
+            t_fail = u['t_end'] + 16 * TICK + f.handler_sleep
             later_up = [x for x in c.upgrades if x['t_start'] > u['t_start']]
             t_next = later_up[0]['t_start'] if later_up else f.end
             snap = u.get('snap_after')
@@ -1403,7 +1450,7 @@ def check_heartbeat(h, f=None):
             if req.t_arrive is None or ('sid=' + sid) not in req.query:
                 continue
             t1 = req.t_done if req.t_done is not None else f.end
-            if t1 - req.t_arrive > I + T + 2 * TICK:
+            if t1 - req.t_arrive > I + T + 2 * TICK + f.handler_sleep:
                 out.append(V('poll-bound', '%s|poll-held-longer-than-I+T' %
                              impl, 'session %s: poll %d reached the server '
                              'at t=%.4f and was %s at t=%.4f, longer than '
@@ -1424,7 +1471,7 @@ def check_heartbeat(h, f=None):
         # (c) detection bound: last PONG + I + 3T = unanswered PING + 3T
         if f.monitor and dsc is not None and not f.has_sleep:
             sil = [cz for cz in f.causes(sid) if cz['kind'] == 'silence' and
-                   cz.get('resumed') is None]
+                   cz.get('resumed') is None and not cz.get('optional')]
             if sil:
                 cz = min(sil, key=lambda x: x['t'])
                 deadline = cz['t'] + 2 * T
@@ -1441,11 +1488,13 @@ def check_heartbeat(h, f=None):
         # monitor off: the first send after the deadline detects the silence
         if not f.monitor and not s['disconnect']:
             for cz in f.causes(sid):
-                if cz['kind'] != 'silence' or cz.get('resumed') is not None:
+                if cz['kind'] != 'silence' or cz.get('resumed') is not None \
+                        or cz.get('optional'):
                     continue
                 for rec in h.app_sends:
                     if rec['sid'] == sid and rec['t_start'] is not None and \
-                            rec['t_start'] > cz['t'] + TICK and \
+                            rec['t_start'] > cz['t'] + TICK + \
+                            f.handler_sleep and \
                             rec['t_start'] < f.end - 0.1:
                         out.append(V('detect-at-send',
                                      '%s|send-after-deadline-did-not-detect'
@@ -1729,6 +1778,22 @@ def check_completion(h, f=None):
                          'upgrade request): %s' % (
                              req.query, req.headers,
                              '; '.join(req.gw_errors) or 'no response')))
+            continue
+        if req.escaped and 'sid=' not in req.query and any(
+                a['name'] == 'disconnect' and 'sid' not in a and
+                a['seq_start'] is not None and
+                a['seq_start'] < (req.seq_done or 1 << 60) and
+                (a['seq_end'] is None or a['seq_end'] > req.seq_arrive)
+                for a in h.world.api_calls):
+            # K10: disconnect() (all sessions) closed the session this very
+            # request was opening
+            out.append(V('no-exception-escapes',
+                         '%s|disconnect-all-during-connect' % impl,
+                         'open request %s %r: %s left the application '
+                         'callable: Server.disconnect() closed the session '
+                         'between its entry into the table and the end of '
+                         '_handle_connect' % (req.method, req.query,
+                                              req.escaped)))
             continue
         if req.escaped:
             exc = req.escaped.split(':')[0]
@@ -2081,7 +2146,9 @@ def check_open(h, f=None):
             # rejected: 401 carrying the value when truthy
             val = {'false': False, 'zero': 0, 'empty': '', 'text': 'go away',
                    'dict': {'code': 7, 'why': 'no'}, 'list': ['no', 1],
-                   'emptylist': [], 'raise': False}.get(outcome)
+                   'emptylist': [], 'raise': False, 'one': 1,
+                   'onefloat': 1.0, 'zerofloat': 0.0, 'num': 7,
+                   'emptydict': {}}.get(outcome)
             if req.kind == 'http':
                 if req.status != 401:
                     out.append(V('reject-401', '%s|rejected-open-status-%s|%s'
